@@ -53,8 +53,25 @@ static lib::BuildFields fieldsFromSeed(int cls, uint64_t seed)
 static std::string textOf(uint32_t id, size_t n)
 {
     std::string s(n, 'x');
+    const uint64_t r = mix64(id * 0x9E3779B97F4A7C15ULL + 911);
+    const bool anyByte = (r & 3) == 0;  // one string in four uses every byte value but NUL, the others printable ASCII
     for (size_t i = 0; i < n; ++i)
-        s[i] = static_cast<char>('!' + (contentByte(id, static_cast<uint32_t>(i)) % 90));
+    {
+        const uint8_t c = contentByte(id, static_cast<uint32_t>(i));
+        s[i] = anyByte ? static_cast<char>(c ? c : 0xA5) : static_cast<char>('!' + (c % 90));
+    }
+    if (((r >> 2) & 7) == 0 && n)
+    {
+        // one string in eight begins with a dictionary sequence (text-encoding marks, byte sequences from the sources); NUL-free
+        const auto& seqs = sourceSequences();
+        const Bytes& q = seqs[(r >> 8) % seqs.size()];
+        bool nulFree = true;
+        for (uint8_t b : q)
+            nulFree = nulFree && b != 0;
+        if (nulFree)
+            for (size_t i = 0; i < q.size() && i < n; ++i)
+                s[i] = static_cast<char>(q[i]);
+    }
     return s;
 }
 
